@@ -3,7 +3,9 @@ package main
 import (
 	"context"
 	"fmt"
+	"os"
 	"runtime"
+	"strconv"
 	"strings"
 	"sync"
 	"sync/atomic"
@@ -186,4 +188,78 @@ func loopParked() (string, bool) {
 		}
 	}
 	return b.String(), ok && n > 0
+}
+
+// trigWrap32 (thorough only): exactly 2^32 calls of one trigger function land during ONE run of f
+// (f is held at a gate; the calls come from 8 goroutines, 2^29 each; a non-blocking send on the
+// full channel is a few nanoseconds). After the gate opens, a run that began after those calls
+// must follow — a call counter narrower than the number of calls would forget the pending run.
+func trigWrap32(c *vkit.Case) {
+	r := c.R
+	grp := xsync.NewGroup(context.Background())
+	var begun atomic.Int64
+	gate := make(chan struct{})
+	inside := make(chan struct{}, 4)
+	f := func(ctx context.Context) {
+		n := begun.Add(1)
+		if n == 1 {
+			inside <- struct{}{}
+			<-gate
+		}
+	}
+	var trig func()
+	kind := "Trigger"
+	if c.Index == 1 {
+		kind = "PeriodicOrTrigger(1h)"
+		trig = grp.PeriodicOrTrigger(time.Hour, 0, f)
+	} else {
+		trig = grp.Trigger(f)
+	}
+	trig()
+	<-inside // the first run is in progress
+	total := uint64(1) << 32
+	if v, err := strconv.ParseUint(os.Getenv("VERIF_WRAP32_TOTAL"), 10, 64); err == nil && v >= 8 {
+		total = v
+	}
+	var wg sync.WaitGroup
+	for w := 0; w < 8; w++ {
+		wg.Add(1)
+		go func() {
+			defer wg.Done()
+			for i := uint64(0); i < total/8; i++ {
+				trig()
+			}
+		}()
+	}
+	wg.Wait()
+	b := begun.Load()
+	close(gate)
+	answered := func() bool { return begun.Load() > b }
+	t0 := time.Now()
+	for !answered() && time.Since(t0) < 2*time.Second {
+		time.Sleep(50 * time.Microsecond)
+	}
+	r.Eval(1)
+	r.Count("trig-sweep", "exactly 2^32 trigger calls during one run", 1)
+	if !answered() {
+		verdict := "inconclusive"
+		var dump string
+		hard := time.Now().Add(60 * time.Second)
+		for time.Now().Before(hard) && !answered() {
+			a, okA := loopParked()
+			time.Sleep(200 * time.Millisecond)
+			b2, okB := loopParked()
+			if okA && okB && a == b2 && !answered() {
+				verdict, dump = "never", b2
+				break
+			}
+		}
+		if verdict == "never" {
+			c.Violation("trigger-lost", fmt.Sprintf("trig-wrap32: exactly %d calls of the trigger function of one %s were made while one run of f was in progress; after that run ended no further run began (the function's goroutine is parked in its select)", total, kind),
+				map[string]any{"goroutines": dump})
+		} else if !answered() {
+			r.Inconclusive("trig-wrap32: not answered and not provably parked")
+		}
+	}
+	grp.StopAndWait()
 }
